@@ -263,7 +263,7 @@ impl Prop for C11 {
     fn runs(&self, t: Tier) -> u64 {
         match t {
             Tier::Quick => 20_000,
-            Tier::Thorough => 1_000_000,
+            Tier::Thorough => 3_000_000,
         }
     }
     fn nontrivial_rule(&self) -> &'static str {
